@@ -1055,6 +1055,53 @@ fn dispatch(plan: &Plan, from_str_too: bool) -> (Option<Res3>, Res3, bool, u32) 
     }
 }
 
+/// The document re-written as a windows-1251 document with a declaration: some Latin
+/// letters of the names become Cyrillic bytes, other non-ASCII characters become arbitrary
+/// high bytes, and now and then an attribute with a name of 1..20 Cyrillic bytes is added
+/// to a start tag (name decoding into the key buffer sees every length). Not UTF-8 any
+/// more: only `from_reader` runs on it, only C07's monitors apply.
+pub fn to_cp1251(rng: &mut Rng, doc: &str) -> Vec<u8> {
+    let mut out: Vec<u8> = b"<?xml version=\"1.0\" encoding=\"windows-1251\"?>".to_vec();
+    let map = |c: char| -> Option<u8> {
+        match c {
+            'a' => Some(0xE0),
+            'b' => Some(0xE1),
+            'k' => Some(0xEA),
+            'i' => Some(0xE8),
+            'd' => Some(0xE4),
+            'n' => Some(0xED),
+            _ => None,
+        }
+    };
+    let mut in_tag_name = false;
+    let mut prev = '\0';
+    for c in doc.chars() {
+        if in_tag_name && (c == ' ' || c == '>' || c == '/' || c == '\n' || c == '\t') {
+            in_tag_name = false;
+            if rng.chance(1, 3) {
+                out.push(b' ');
+                for _ in 0..rng.range(1, 20) {
+                    out.push(0xE0 + rng.below(32) as u8);
+                }
+                out.extend_from_slice(b"=\"v\"");
+            }
+        }
+        if prev == '<' && (c.is_alphabetic() || c == '_') {
+            in_tag_name = true;
+        }
+        if c.is_ascii() {
+            match map(c) {
+                Some(b) if rng.chance(2, 3) => out.push(b),
+                _ => out.push(c as u8),
+            }
+        } else {
+            out.push(0xC0 + (c as u32 % 64) as u8);
+        }
+        prev = c;
+    }
+    out
+}
+
 /// C14 speaks about UTF-8 documents "not declaring another encoding": anything that
 /// looks like an encoding pseudo-attribute with a value other than UTF-8 is excluded
 /// from the comparison (conservatively: anywhere in the document).
@@ -1117,7 +1164,12 @@ impl Scenario for De {
                 }
             }
         }
-        p.doc = doc.into_bytes();
+        if rng.chance(1, 16) {
+            p.doc = to_cp1251(rng, &doc);
+            p.note.push_str("; rewritten as windows-1251");
+        } else {
+            p.doc = doc.into_bytes();
+        }
         let (mut st, mode) = gen_stream(rng, &p.doc, false);
         st.keep_buf = false;
         st.faults.clear();
